@@ -392,6 +392,14 @@ def extract_function(fn):
         log.append("rule /%s/ -> '%s' x%d" % (pat, rep, k))
     if fn.get("scope", True):
         body = apply_scope_rule(body, log)
+    for mname in fn.get("methods", []):
+        def _m(mo, body_ref=[None]):
+            return mo.group(0)
+        pat = re.compile(r"(?<![\w.>:])%s\(\s*(\)?)" % re.escape(mname))
+        body, k = pat.subn(lambda mo: "%s(self%s" % (mname, ")" if mo.group(1) else ", "), body)
+        if k == 0:
+            raise ExtractionBroken("%s: member call %s( not found" % (fn["name"], mname))
+        log.append("member-function call %s(...) -> %s(self, ...) x%d" % (mname, mname, k))
     for rname in fn.get("refs", []):
         body, k = re.subn(r"(?<![\w.>])%s\b" % re.escape(rname), "(*%s)" % rname, body)
         log.append("reference parameter %s -> pointer parameter, uses -> (*%s) x%d" % (rname, rname, k))
@@ -440,6 +448,8 @@ def extract_function(fn):
 
 
 def _check_count(fn, pat, k, cnt):
+    if cnt == "any":      # pure qualifier-stripping rules: a different count cannot make the extraction unsound
+        return
     if cnt is None:
         if k == 0:
             raise ExtractionBroken("%s: must-fire rule /%s/ did not fire" % (fn["name"], pat))
